@@ -415,6 +415,16 @@ func (u *Unit) storeField(st *State, ref Val, owner types.Type, f *types.Var, v 
 	fs := u.reg.sortOf(f.Type())
 	key := fieldHeapKey(owner, f.Name())
 	h := u.heapTerm(st, key, "(Array Int "+fs+")")
+	if u.globalMode {
+		// initial value of a package-level object: a fact about the initial heap, kept only for
+		// fields that no function of the module ever writes
+		if !u.prog.everWritten(key) {
+			u.reg.axiom(eq("(select "+h+" "+ref.T+")", v.T))
+		} else {
+			u.reg.note("initial value of package-level object field " + key + " not assumed (the field is written somewhere in the module)")
+		}
+		return
+	}
 	u.checkAssigns(st, key, ref, n)
 	st.heap[key] = "(store " + h + " " + ref.T + " " + v.T + ")"
 }
@@ -431,6 +441,10 @@ func (u *Unit) storeDeref(st *State, p Val, elem types.Type, v Val) {
 	srt := u.reg.sortOf(elem)
 	key := "C:" + srt
 	h := u.heapTerm(st, key, "(Array Int "+srt+")")
+	if u.globalMode {
+		u.reg.axiom(eq("(select "+h+" "+p.T+")", v.T))
+		return
+	}
 	st.heap[key] = "(store " + h + " " + p.T + " " + v.T + ")"
 }
 
